@@ -51,7 +51,7 @@ def gen_case(rng, ci, quick):
         h = {"current": str(rev), "hex": "0x%x" % rev, "stale": str(rev - 1) if rev > 0 else "7", "future": str(rev + rng.randint(1, 3)),
              "garbage": rng.choice(["abc", "-1", "1.0", " 1", "0x"]), "missing": None, "empty": "", "underscore": "0_%o" % rev if rev else "0_0"}[how]
         add("F:%s:%s:ok" % ("!" if h is None else hx(h), hx(body)), {"hdr": h, "valid_guess": valid})
-        hv = ref_parse_uint(h) if h is not None else None
+        hv = ref_parse_uint(h.strip(" \t")) if h is not None else None
         if valid and hv is not None and hv == rev:
             rev += 1; oppw = newpw      # the Operator flag of a session stays with the session; only the password changes
         if rng.random() < 0.6:
@@ -115,7 +115,7 @@ def monitor(ops, obs, ann):
         if k == "N":
             cur = state_of(o)
         elif k == "F":
-            hdr = None if o["h"] == "!" else unhx(o["h"]).decode("latin-1")
+            hdr = None if o["h"] == "!" else unhx(o["h"]).decode("latin-1").strip(" \t")   # net/http trims optional whitespace around header values
             hv = ref_parse_uint(hdr) if hdr is not None else None
             should = o["tp"] != "!" and hv is not None and str(hv) == cur[0]
             new = state_of(o)
@@ -175,7 +175,8 @@ def model_case(ops, obs, ann):
         if k == "N":
             st0 = state_of(o)
         elif k == "F" and "status" in o:
-            mops.append("F:%s:%s:%s" % (o["h"], o["b"], o["tp"]))
+            h = o["h"] if o["h"] == "!" else hx(unhx(o["h"]).decode("latin-1").strip(" \t"))   # as the handler sees it (net/http trims)
+            mops.append("F:%s:%s:%s" % (h, o["b"], o["tp"]))
             want.append("F:%s:%s" % ("acc" if o["status"] == "200" else "rej", ":".join(state_of(o))))
         elif k in ("I", "P", "T") and "crev" in o:
             if a and "gline" in a and a["effective"]:
